@@ -43,7 +43,7 @@ def run_demo(wt, demo, demo_dir):
 def verify(a):
     src = a.src
     patch = os.path.join(src, "patch.diff")
-    demos = [f for f in os.listdir(src) if f.endswith("_test.go")]
+    demos = sorted([f for f in os.listdir(src) if f.endswith("_test.go")], key=lambda f: (f != "demo_test.go", f))
     assert demos, "no demo"
     demo = os.path.join(src, demos[0])
     wt = "/tmp/vwt-%s" % a.id
@@ -77,7 +77,9 @@ def verify(a):
     dst = os.path.join(SEEDED, a.id)
     os.makedirs(dst, exist_ok=True)
     for f in os.listdir(src):
-        shutil.copy(os.path.join(src, f), os.path.join(dst, f))
+        if os.path.isdir(os.path.join(src, f)) or f.endswith((".log", ".tgz", ".tar.gz")) or os.path.getsize(os.path.join(src, f)) > 400000:
+            continue
+        shutil.copy(os.path.join(src, f), os.path.join(dst, f + ("" if f == demos[0] or not f.endswith("_test.go") else ".txt")))
     meta = {"id": a.id, "property": a.prop, "summary": a.summary, "demo": demos[0], "demo_dir": a.demo_dir,
             "confirmed": res, "origin": "sub-agent given only the property text and a scratch worktree",
             "detection": {}}
